@@ -12,6 +12,7 @@ import (
 	vr "github.com/notaryproject/notation-go/internal/zzvr"
 	"github.com/notaryproject/notation-go/internal/zzvr/blobkit"
 	"github.com/opencontainers/go-digest"
+	ocispec "github.com/opencontainers/image-spec/specs-go/v1"
 )
 
 // VsymC01BlobRoute: notation.VerifyBlob. The blob is what the caller's reader delivers - in one piece or in
@@ -29,7 +30,8 @@ func VsymC01BlobRoute() {
 	alg := []signature.Algorithm{signature.AlgorithmPS256, signature.AlgorithmES384, signature.AlgorithmPS512}[k]
 	hash := []digest.Algorithm{digest.SHA256, digest.SHA384, digest.SHA512}[k]
 	signedMT := []string{"text/plain", "application/octet-stream"}[vr.Choice("signedMediaType", 2)]
-	callerMT := []string{"", "text/plain", "application/octet-stream"}[vr.Choice("callerMediaType", 3)]
+	// the caller's media type is compared as stated: parameters and letter case are part of it
+	callerMT := []string{"", "text/plain", "application/octet-stream", "text/plain; charset=utf-8", "Text/Plain"}[vr.Choice("callerMediaType", 5)]
 	sizeOff := int64(vr.Choice("signedSizeOffBy", 2))
 	signedMeta := vr.Choice("signedMetadata", 2) == 1
 	var required map[string]string
@@ -76,3 +78,66 @@ func VsymC01BlobRoute() {
 }
 
 func init() { vsymHarnesses["VsymC01BlobRoute"] = VsymC01BlobRoute }
+
+// VsymC01MetadataSequence: several verifications that share one required-metadata map (as notation.Verify does for
+// the signatures of an artifact, and as a caller re-using its options does). Each is decided by the pairs its own
+// signature carries, whatever was verified before, and the caller's map is left as it was.
+func VsymC01MetadataSequence() {
+	kitEnv = kitEnvState{}
+	kitInstallEnvelope()
+	leaf := &x509.Certificate{Raw: []byte{'c', '0'}}
+	leaf.Subject.Country, leaf.Subject.Province, leaf.Subject.Organization = []string{"US"}, []string{"WA"}, []string{"a"}
+	leaf.NotBefore, leaf.NotAfter = time.Unix(946684800, 0), time.Unix(4102444800, 0)
+	store := &kitStore{answers: map[string]kitStoreAnswer{"ca:s": {certs: []*x509.Certificate{leaf}}}}
+	level := []string{"strict", "permissive", "audit"}[vr.Choice("level", 3)]
+	v, err := NewVerifierWithOptions(store, VerifierOptions{OCITrustPolicy: kitOCIDoc(level, nil, []string{"ca:s"}, []string{"*"}),
+		RevocationCodeSigningValidator: &kitValidator{results: kitOKResults(1)}, RevocationTimestampingValidator: &kitValidator{}})
+	vr.Assert(err == nil, "harness: verifier")
+	if err != nil {
+		return
+	}
+	required := map[string]string{"k": "v", "k2": "v2"}
+	opts := notation.VerifierVerifyOptions{ArtifactReference: kitRef, SignatureMediaType: kitJWS, UserMetadata: required}
+	desc := ocispec.Descriptor{MediaType: "m", Digest: "d", Size: 1}
+	n := vr.Param("verifications", 2)
+	for i := 0; i < n; i++ {
+		// what this signature carries: both pairs, one of them, one with another value, none; made for this artifact or another
+		carries := vr.Choice("signatureCarries", 5)
+		var ann []any
+		switch carries {
+		case 0:
+			ann = []any{"k", vr.JStr("v"), "k2", vr.JStr("v2")}
+		case 1:
+			ann = []any{"k", vr.JStr("v")}
+		case 2:
+			ann = []any{"k", vr.JStr("v"), "k2", vr.JStr("other")}
+		case 3:
+			ann = nil
+		case 4:
+			ann = []any{"k", vr.JStr("v"), "k2", vr.JStr("v2"), "k3", vr.JStr("v3")}
+		}
+		otherArtifact := vr.Choice("signedForAnotherArtifact", 2) == 1
+		dg := "d"
+		if otherArtifact {
+			dg = "e"
+		}
+		target := []any{"mediaType", vr.JStr("m"), "digest", vr.JStr(dg), "size", vr.JNum(1)}
+		if ann != nil {
+			target = append(target, "annotations", vr.JObj(ann...))
+		}
+		kitEnv.content = &signature.EnvelopeContent{
+			Payload: signature.Payload{ContentType: c01PayloadType, Content: vr.JSONBytes(vr.JObj("targetArtifact", vr.JObj(target...)))},
+			SignerInfo: signature.SignerInfo{SignedAttributes: signature.SignedAttributes{SigningScheme: signature.SigningSchemeX509, SigningTime: time.Unix(1700000000, 0)},
+				SignatureAlgorithm: signature.AlgorithmPS256, CertificateChain: []*x509.Certificate{leaf}, Signature: []byte("sig")},
+		}
+		_, verr := v.Verify(context.Background(), desc, []byte{1}, opts)
+		want := (carries == 0 || carries == 4) && !otherArtifact
+		vr.Assert((verr == nil) == want, "a signature is accepted iff it is bound to the artifact and carries every required pair - whatever the same options were used for before")
+		vr.Assert(len(required) == 2 && required["k"] == "v" && required["k2"] == "v2", "verification leaves the caller's required-metadata map as it was")
+		if i > 0 {
+			vr.Reach("verified again with the same options")
+		}
+	}
+}
+
+func init() { vsymHarnesses["VsymC01MetadataSequence"] = VsymC01MetadataSequence }
